@@ -44,6 +44,7 @@ struct RunState {
     UtestShell* outsideShell;
     TestOutput* primaryOutput;
     TestRegistry* reg; Vec<TestPlugin*> pluginObjs; Vec<char> pluginInstalled;
+    SetPointerPlugin* innerSetPtr;      // constructed before the first test: nested fixture runs may install it in their own registry
 };
 static RunState RS;
 // platform realloc seam: the next call fails when a realloc op asks for it (b = 1)
@@ -378,7 +379,9 @@ static void execOp(const Group& T, const Op& o) {
         break;
     }
     case K_NESTED_RUN: {      // as the library's own tests do: a fixture with a registry, output and result of its own runs one test; afterwards the outer test is current again
-        TestTestingFixture fx; fx.setTestFunction(o.a ? nestedFailingTest : nestedPassingTest); fx.runAllTests();
+        TestTestingFixture fx; fx.setTestFunction(o.a ? nestedFailingTest : nestedPassingTest);
+        if ((o.b & 1) && RS.innerSetPtr) { fx.installPlugin(RS.innerSetPtr); fired("nested_run_with_its_own_pointer_plugin"); }      // its post action restores (early) what the outer test redirected so far
+        fx.runAllTests();
         break; }
     case K_ADD_FAILURES: { UtestShell* cur = UtestShell::getCurrent(); for (int64_t n = 0; n < o.a; n++) cur->addFailure(TestFailure(cur, file, line, SimpleString(text))); break; }
     case K_PLUGIN_REMOVE: { size_t p = (size_t)o.a; if (p < RS.pluginObjs.size()) { if (!RS.pluginInstalled[p]) fired("remove_plugin_name_that_is_not_installed"); RS.reg->removePluginByName(RS.pluginObjs[p]->getName()); RS.pluginInstalled[p] = 0; } break; }   // a name that is not installed: nothing may change
@@ -598,6 +601,7 @@ void executeRun(const Desc& d, Obs& o) {
     RS.outsideShell = UtestShell::getCurrent();
     for (int i = 0; i < N_TARGETS; i++) g_tgt[i] = &g_init[i];
     memset(RS.slots, 0, sizeof RS.slots);
+    static SetPointerPlugin* innerPlugin = new (::malloc(sizeof(SetPointerPlugin))) SetPointerPlugin("InnerSetPointerPlugin"); RS.innerSetPtr = innerPlugin;
     for (size_t g = 0; g < d.groups.size(); g++) if (d.groups[g].tag == "presets")
         for (size_t i = 0; i < d.groups[g].ops.size() && i < 8; i++) { const Op& po = d.groups[g].ops[i]; if (po.kind != K_PTR_SET) continue; UT_PTR_SET(g_tgt[po.a % N_TARGETS], (void*)&g_val[po.b % N_VALUES]); fired("pointer_set_outside_tests"); }
 
@@ -646,6 +650,7 @@ void executeRun(const Desc& d, Obs& o) {
         if (!late) reg.installPlugin(sp);
         RS.pluginObjs.push_back(sp); RS.pluginInstalled.push_back(late ? 0 : (P.arg(1) ? 0 : 1));
     }
+    if (d.pi("dup_plugin_names")) fired("two_plugins_under_one_name");
     RS.reg = &reg;
     reg.installPlugin(leak);
     {   // removals by name, at any chain position (the leak plugin sits on top of the scripted ones)
